@@ -206,3 +206,102 @@ Proof.
     + apply mu_completion_finish; auto.
     + exists t. auto.
 Qed.
+
+(* ---------------- bounded waiting ---------------- *)
+(* a request that gets no answer leaves the state alone *)
+Lemma try_advance_none_same s : InvAll s -> want s = true -> phase s = Retrieving ->
+  snd (try_advance s) = None -> fst (try_advance s) = s.
+Proof.
+  intros [[[[[H1 H2] H3] H4] H5] H6] Hw Hp Hn.
+  unfold try_advance in *. rewrite Hw in *.
+  assert (Hfuel : adv_fuel s = S (3 + length (jobs s))) by (unfold adv_fuel; rewrite Hp; lia).
+  rewrite Hfuel in *. remember (3 + length (jobs s)) as fu eqn:Hfu. cbn [advance] in *.
+  destruct (pend_out s) as [|v r] eqn:Hpo; [|discriminate Hn].
+  rewrite Hp in *.
+  assert (Hdr : forall x, phase x = Draining (if exception s then [] else jobs s) -> snd (advance fu x) <> None).
+  { intros x Hx. apply (drain_answers (if exception s then [] else jobs s)); [exact Hx|].
+    subst fu. destruct (exception s); cbn [length]; lia. }
+  destruct (aborting s) eqn:Hab; cbn [orb] in *.
+  { destruct (first_failed s); [discriminate Hn|]. exfalso. revert Hn. apply Hdr. reflexivity. }
+  assert (Hx : exception s = false).
+  { destruct (exception s) eqn:E; [|reflexivity]. pose proof (o_exc_ab s H4 E). congruence. }
+  assert (Hhead : forall j js, jobs s = j :: js -> status_of s j = Done ->
+            snd (advance fu (set_out s js (remove_id j (jset s)) (tasks_of s j) true Retrieving)) <> None).
+  { intros j js Hj Hst. destruct fu as [|fu']; [lia|]. cbn [advance pend_out set_out].
+    assert (Hcur : is_cur s j = true).
+    { pose proof (j_jobs s H2) as A. unfold allcur in A. rewrite Hj in A. apply Forall_inv in A. exact A. }
+    pose proof (j_nonempty s H2 Hx j Hcur) as Hne.
+    destruct (tasks_of s j); [contradiction | discriminate]. }
+  destruct (iterating s) eqn:Hit; cbn [orb] in *.
+  - destruct (jobs s) as [|j js] eqn:Hj; [reflexivity|].
+    destruct (status_of s j) eqn:Hst; [reflexivity | | discriminate Hn].
+    exfalso. revert Hn. apply (Hhead j js eq_refl Hst).
+  - destruct (n_comp s <? n_disp s).
+    + destruct (jobs s) as [|j js] eqn:Hj; [reflexivity|].
+      destruct (status_of s j) eqn:Hst; [reflexivity | | discriminate Hn].
+      exfalso. revert Hn. apply (Hhead j js eq_refl Hst).
+    + exfalso. revert Hn. apply Hdr. reflexivity.
+Qed.
+
+Definition is_completion (e : ev) : Prop :=
+  match e with ECbStart _ None => True | ECbFinish _ 1 => True | _ => False end.
+
+(* From any reachable state in which the consumer waits there is a schedule of at most mu s completion events
+   (each of a batch of the current call that is in flight or between the two sections of its callback) after
+   which the consumer has its answer: no deadlock, and an explicit bound. *)
+Theorem bounded_waiting : forall n s, reach s -> mu s <= n -> want s = true -> phase s = Retrieving ->
+  snd (try_advance s) = None ->
+  exists es, es <> [] /\ length es <= n /\ Forall (fun e => wf_ev e /\ is_completion e) es /\
+             last (snd (run_events true s es)) [] <> [].
+Proof.
+  induction n as [|n IH]; intros s Hr Hmu Hw Hp Hn.
+  - exfalso. destruct (waiting_has_decreasing_completion s Hr Hw Hp Hn) as (e & _ & _ & Hlt & _). lia.
+  - destruct (waiting_has_decreasing_completion s Hr Hw Hp Hn) as (e & Hwf & Hnc & Hlt & t & Hcur & He).
+    assert (Hcomp : is_completion e) by (destruct He as [-> | ->]; exact I).
+    pose proof (reach_step s e Hr Hwf) as Hr1.
+    destruct (step true s e) as [s1 o] eqn:Hstep. cbn [fst] in *.
+    destruct o as [|x xs].
+    + (* still no answer: the state after the completion is waiting again, with a smaller mu *)
+      pose proof Hstep as Hstep0.
+      assert (Hall : InvAll s) by (apply reach_invall; exact Hr).
+      assert (Hnj : 1 <= n_jobs (c s)) by (apply invall_wf; exact Hall).
+      set (s' := fst (step_raw true s e)).
+      assert (Hs' : InvAll s' /\ want s' = want s /\ phase s' = phase s /\ snd (step_raw true s e) = None).
+      { unfold s'. destruct He as [-> | ->]; cbn [step_raw fst snd].
+        - split; [apply invall_cb_start; exact Hall|].
+          destruct (cb_start_fields3 s t None) as (_ & _ & _ & _ & _ & _ & _ & _ & _ & _ & A11).
+          split; [|split; [exact A11 | reflexivity]].
+          unfold cb_start. destruct (get_trk s t); [|reflexivity].
+          destruct (negb (mem_id t (inflight s))); [reflexivity|].
+          destruct (negb (tk_cid t0 =? cid s) || aborting s); reflexivity.
+        - split; [exact (ParallelFrame3.P_cb_finish InvAll invall_cb_finish_noorig invall_cb_finish_orig invall_cb_stale
+                            s t 1 Hall Hnj (le_n 1))|].
+          assert (Hfr : want (cb_finish true s t 1) = want s /\ phase (cb_finish true s t 1) = phase s).
+          { unfold cb_finish. destruct (get_trk s t) as [k|]; [|auto].
+            destruct (negb (mem_id t (cbmid s))); [auto|].
+            destruct (true && negb (tk_cid k =? cid s)); [auto|].
+            set (sc := mark_closed _ t). destruct (orig sc); [|auto].
+            assert (Hnjc : 1 <= n_jobs (c sc)) by exact Hnj.
+            pose proof (dispatch_one_batch_shape sc 1 true Hnjc (le_n 1)) as Hsh.
+            destruct (dispatch_one_batch sc 1 true) as [s2 r]. cbn [fst snd] in Hsh.
+            assert (E : want s2 = want sc /\ phase s2 = phase sc) by (inversion Hsh; subst; auto).
+            destruct r; cbn [want phase set_flags]; exact E. }
+          destruct Hfr as [A B]. auto. }
+      destruct Hs' as (Hall' & Hw' & Hp' & Hraw).
+      unfold step in Hstep. destruct (step_raw true s e) as [sr orr] eqn:Hsr. cbn [fst snd] in *. subst orr.
+      unfold s' in *. cbn [fst] in *.
+      destruct (try_advance sr) as [s2 o2] eqn:Hta. injection Hstep as -> Ho.
+      assert (Ho2 : o2 = None) by (destruct o2; [discriminate Ho | reflexivity]). subst o2.
+      assert (Hsame : s1 = sr).
+      { pose proof (try_advance_none_same sr Hall' (eq_trans Hw' Hw) (eq_trans Hp' Hp)) as A. rewrite Hta in A. apply A. reflexivity. }
+      subst sr.
+      destruct (IH s1 Hr1 ltac:(lia) (eq_trans Hw' Hw) (eq_trans Hp' Hp) ltac:(rewrite Hta; reflexivity))
+        as (es & Hne & Hlen & Hall_es & Hlast).
+      exists (e :: es). split; [discriminate|]. split; [cbn; lia|]. split; [constructor; auto|].
+      cbn [run_events]. rewrite Hstep0.
+      destruct (run_events true s1 es) as [sf os] eqn:Hrun. cbn [snd] in *.
+      destruct os as [|o' os']; [destruct es; [contradiction | cbn in Hrun; destruct (step true s1 e0); destruct (run_events true s0 es); discriminate Hrun]|].
+      exact Hlast.
+    + exists [e]. split; [discriminate|]. split; [cbn; lia|]. split; [constructor; auto|].
+      cbn [run_events]. rewrite Hstep. cbn. discriminate.
+Qed.
